@@ -235,6 +235,12 @@ def Layout.normalize : Layout → Layout
   | .mk le m fs c =>
     .mk (match m with | .int _ _ => le | _ => none) m (mergePads (fs.map (Field.pushEndian le))) c
 
+/-- the normal form under the endianness `e` in force at the place where the struct is read: the
+struct's own attribute, if any, is resolved first (so a redundant `#[brw(little)]` on a struct that
+is only ever read little-endian does not change the normal form) -/
+def Layout.normalizeAt (e : Endian) : Layout → Layout
+  | .mk le m fs c => (Layout.mk (some (le.getD e)) m fs c).normalize
+
 /-- the phrasing of every tie theorem: `model reader l = via proj (Layout.read e generated l)` —
 the hand-written reader is the generated layout followed by a pure projection of the values -/
 def via {α : Type} (proj : List Value → Option α) (x : Option (List Value × Bytes)) : Option (α × Bytes) :=
